@@ -10,6 +10,7 @@
 #include "st_format.h"
 #include "st_stringstream.h"
 #include "st_iostream.h"
+#include <memory>
 
 using hx::Fail;
 using hx::Fails;
@@ -18,9 +19,31 @@ using vf::strf;
 typedef ST::string S;
 enum { LL = 16 };  // in-object limit of char_buffer
 
+// allocation-fault injection (C19): when g_fault_k >= 0 the k-th allocation made by library code inside the next LIB scope
+// throws std::bad_alloc (alloc.h counts only allocations made while an OpScope is active)
+static long g_fault_k = -1;
+static bool g_fault_fired = false;
+static long g_lib_allocs = 0;  // allocations made inside LIB scopes since the last reset (for sizing the fault index space)
+struct FaultArm {
+    FaultArm()
+    {
+        if (g_fault_k >= 0 && !g_fault_fired) vf::arm_fault(g_fault_k);
+        else {
+            vf::g_alloc.op_allocs = 0;
+            vf::g_alloc.fault_fired = false;
+        }
+    }
+    ~FaultArm()
+    {
+        if (vf::g_alloc.fault_fired) g_fault_fired = true;
+        g_lib_allocs += vf::g_alloc.op_allocs;
+        vf::disarm_fault();
+    }
+};
 #define LIB(stmt)        \
     do {                 \
         vf::OpScope _sc; \
+        FaultArm _fa;    \
         stmt;            \
     } while (0)
 
@@ -225,30 +248,30 @@ struct ConstOp {
 template <class F>
 static Held *hs(F f)
 {
-    HeldString *h = new HeldString();
+    std::unique_ptr<HeldString> h(new HeldString());
     LIB(h->v = f());
-    return h;
+    return h.release();
 }
 template <class T, class F>
 static Held *hb(F f)
 {
-    HeldBuffer<T> *h = new HeldBuffer<T>();
+    std::unique_ptr<HeldBuffer<T>> h(new HeldBuffer<T>());
     LIB(h->v = f());
-    return h;
+    return h.release();
 }
 template <class F>
 static Held *hv(F f)
 {
-    HeldVector *h = new HeldVector();
+    std::unique_ptr<HeldVector> h(new HeldVector());
     LIB(h->v = f());
-    return h;
+    return h.release();
 }
 template <class T, class F>
 static Held *hstd(F f)
 {
-    HeldStd<T> *h = new HeldStd<T>();
-    h->v = f();
-    return h;
+    std::unique_ptr<HeldStd<T>> h(new HeldStd<T>());
+    LIB(h->v = f());
+    return h.release();
 }
 
 static std::vector<ConstOp> g_ops;
@@ -586,7 +609,10 @@ struct StrSys : World {
                 // storage problems of results are reported by on_new_state for the state itself; here we only stop
                 return;
             }
-            for (int s = 0; s < 2; ++s) before[s] = snap(s);
+            for (int s = 0; s < 2; ++s) {
+                before[s] = snap(s);
+                model_before[s] = model[s];
+            }
         }
         std::string &m = model[o.i];
         std::string mj = o.j >= 0 ? model[o.j] : std::string();
@@ -724,10 +750,10 @@ struct StrSys : World {
         }
         if (!checked) return;
         auto fail = [&](const std::string &what, const std::string &detail) {
-            f.push_back(Fail{strf("c04:%s:%s", tag, what.c_str()), opn + ": " + detail});
+            f.push_back(Fail{strf("%s:%s:%s", prop_tag, tag, what.c_str()), opn + ": " + detail});
         };
         if (!oc.ok()) {
-            fail(vf::outkind_name(oc.kind), oc.str());
+            if (!on_mutator_exception(o, oc, before, tag, opn, f)) fail(vf::outkind_name(oc.kind), oc.str());
             return;
         }
         if (vf::events_total()) fail("heap-event", vf::g_alloc.first_event);
@@ -761,6 +787,10 @@ struct StrSys : World {
         if (vf::live_tracked() != owned_blocks()) fail("leak-or-lost-block", strf("%zu blocks live, %zu owned", vf::live_tracked(), owned_blocks()));
     }
 
+    const char *prop_tag = "c04";
+    std::string model_before[2];
+    // derived systems may accept an exception thrown by a mutator (return true = handled, checks done)
+    virtual bool on_mutator_exception(const MOp &, const vf::Outcome &, const Snap *, const char *, const std::string &, Fails &) { return false; }
     bool light = false;  // derived systems: skip the const-operation battery around mutators
     virtual ~StrSys() {}
     virtual void on_new_state(Fails &f)
